@@ -2,6 +2,7 @@
 import SuplaVerif.Model.Form
 import SuplaVerif.Model.Cred
 import SuplaVerif.Model.FormScan
+import SuplaVerif.Model.FormFlags
 import SuplaVerif.Gen.FormTable
 import Driver.Common
 namespace Driver.FormDrv
@@ -23,6 +24,12 @@ def step (_ : Unit) (toks : List String) : Unit × List String :=
     match old.toInt?, Bytes.ofHex rest with
     | some o, some r => ((), [s!"NUM {applyQos o (fieldValue 12 r)}"])
     | _, _ => ((), ["BADOP"])
+  | ["flags", w, pro, ret, tls, mau] =>
+    -- a field is "-" (absent), "1" (first character '1') or anything else (present, not '1')
+    let f := fun (x : String) => if x == "-" then (none : Option Bool) else some (x == "1")
+    match w.toNat? with
+    | some n => ((), [s!"FLAGS {flagsAfter n (f pro) (f ret) (f tls) (f mau)}"])
+    | none => ((), ["BADOP"])
   | ["keeppwd", l, e, op, om, nm] =>
     match l.toNat?, e.toNat?, Bytes.ofHex op, Bytes.ofHex om, Bytes.ofHex nm with
     | some L, some E, some oldPwd, some oldMail, some newMail =>
